@@ -102,6 +102,7 @@ type PathState struct {
 	PermMaps bool
 	NoHashFork bool
 	hashLog  []hashRec
+	ethHashes int
 	objCount int
 	clock    int
 	lastClock *term.Term
